@@ -70,6 +70,8 @@ def gtxn_variants(atom: Atom, field_read: str, idxs: Sequence[int] = (0, 1, 2), 
         forms.append(["txn GroupIndex", f"int {k}", "+", f"gtxns {f}"])
         forms.append(["txn GroupIndex", f"int {k}", "-", f"gtxns {f}"])
         forms.append([f"int {k}", "txn GroupIndex", "+", f"gtxns {f}"])
+        # k - GroupIndex: an absolute position computed from the own index, NOT the member at offset -k
+        forms.append([f"int {k}", "txn GroupIndex", "-", f"gtxns {f}"])
     forms.append(["txn GroupIndex", f"gtxns {f}"])
     for form in forms:
         a: Atom = []
